@@ -12,7 +12,8 @@ Record nview := mkNV {
   slots : N -> skind;
   hwm : N;                       (* dbid_high_water_mark *)
   allow : N -> bool;             (* allowlist membership *)
-  ninv : N                       (* number of approved invoices *)
+  ninv : N;                      (* number of approved invoices *)
+  iss : N -> option N            (* issued invoices: payment hash -> amount (NodeState::issued_invoices) *)
 }.
 
 (** the persisted entries: node entry (hwm, invoices), allowlist entry, channel entries (stub /
@@ -22,7 +23,8 @@ Record ndisk := mkND {
   d_ninv : N;
   d_allow : N -> bool;
   d_chan : N -> skind;           (* SNone / SStub / SReady only *)
-  d_forgot : N -> bool           (* monitor state inside the tracker entry *)
+  d_forgot : N -> bool;          (* monitor state inside the tracker entry *)
+  d_iss : N -> option N          (* the issued invoices inside the node entry, as of its last write *)
 }.
 
 Record nnode := mkNN { nmem : nview; ndsk : ndisk }.
@@ -35,7 +37,7 @@ Definition nrestore (d : ndisk) : nview :=
                  | SReady => if d_forgot d c then SForgot else SReady
                  | k => k
                  end)
-       (d_hwm d) (d_allow d) (d_ninv d).
+       (d_hwm d) (d_allow d) (d_ninv d) (d_iss d).
 
 Inductive nop :=
 | NewChannel (d : N)
@@ -46,25 +48,32 @@ Inductive nop :=
 | RemoveAllow (k : N) (parses : bool)
 | SetAllow (k : N) (parses : bool)        (* replace the list by [address k]; k = 3: by the empty list *)
 | AddInvoice
+| IssueInvoice (h a : N)                (* sign_bolt11_invoice for payment hash [h] (1..5), [a] msat *)
 | ChannelRequest (d : N)                (* a channel request that the channel refuses, or a setup_channel that policy refuses *)
 | NRestart.
 
 Definition set_slot (s : nnode) (d : N) (k : skind) (dk : skind) : nnode :=
-  mkNN (mkNV (updk (slots (nmem s)) d k) (hwm (nmem s)) (allow (nmem s)) (ninv (nmem s)))
+  mkNN (mkNV (updk (slots (nmem s)) d k) (hwm (nmem s)) (allow (nmem s)) (ninv (nmem s)) (iss (nmem s)))
        (mkND (d_hwm (ndsk s)) (d_ninv (ndsk s)) (d_allow (ndsk s)) (updk (d_chan (ndsk s)) d dk)
-             (d_forgot (ndsk s))).
+             (d_forgot (ndsk s)) (d_iss (ndsk s))).
 
 Definition bump_hwm (s : nnode) (d : N) : nnode :=
   if hwm (nmem s) <? d then
-    mkNN (mkNV (slots (nmem s)) d (allow (nmem s)) (ninv (nmem s)))
-         (mkND d (d_ninv (ndsk s)) (d_allow (ndsk s)) (d_chan (ndsk s)) (d_forgot (ndsk s)))
+    (* the node entry is written: it carries the issued invoices as they are in memory now *)
+    mkNN (mkNV (slots (nmem s)) d (allow (nmem s)) (ninv (nmem s)) (iss (nmem s)))
+         (mkND d (d_ninv (ndsk s)) (d_allow (ndsk s)) (d_chan (ndsk s)) (d_forgot (ndsk s)) (iss (nmem s)))
   else s.
 
 Definition set_allow (s : nnode) (f : N -> bool) : nnode :=
-  mkNN (mkNV (slots (nmem s)) (hwm (nmem s)) f (ninv (nmem s)))
-       (mkND (d_hwm (ndsk s)) (d_ninv (ndsk s)) f (d_chan (ndsk s)) (d_forgot (ndsk s))).
+  mkNN (mkNV (slots (nmem s)) (hwm (nmem s)) f (ninv (nmem s)) (iss (nmem s)))
+       (mkND (d_hwm (ndsk s)) (d_ninv (ndsk s)) f (d_chan (ndsk s)) (d_forgot (ndsk s)) (d_iss (ndsk s))).
 
 Definition MAX_INV : N := 4.
+
+(** the payment hashes of the issued invoices of this domain *)
+Definition ISS_HASHES : list N := [1; 2; 3; 4; 5].
+Definition iss_count (f : N -> option N) : N :=
+  N.of_nat (length (filter (fun h => match f h with Some _ => true | None => false end) ISS_HASHES)).
 
 Definition nstep (s : nnode) (o : nop) : nnode * bool :=
   match o with
@@ -89,7 +98,7 @@ Definition nstep (s : nnode) (o : nop) : nnode * bool :=
           let s1 := set_slot s d SForgot SReady in
           let s2 := mkNN (nmem s1)
                          (mkND (d_hwm (ndsk s1)) (d_ninv (ndsk s1)) (d_allow (ndsk s1)) (d_chan (ndsk s1))
-                               (updk (d_forgot (ndsk s1)) d true)) in
+                               (updk (d_forgot (ndsk s1)) d true) (d_iss (ndsk s1))) in
           (bump_hwm s2 d, true)
       end
   | Heartbeat => (s, true)     (* nothing is buried deep enough in this domain: nothing is pruned *)
@@ -100,16 +109,32 @@ Definition nstep (s : nnode) (o : nop) : nnode * bool :=
       (* Node::add_keysend with a new hash: refused, before anything is counted, when the
          approvals table is full (policy.max_invoices, set to [MAX_INV] by the harness) *)
       if MAX_INV <=? ninv (nmem s) then (s, false) else
-      (mkNN (mkNV (slots (nmem s)) (hwm (nmem s)) (allow (nmem s)) (ninv (nmem s) + 1))
-            (mkND (d_hwm (ndsk s)) (ninv (nmem s) + 1) (d_allow (ndsk s)) (d_chan (ndsk s)) (d_forgot (ndsk s))),
+      (mkNN (mkNV (slots (nmem s)) (hwm (nmem s)) (allow (nmem s)) (ninv (nmem s) + 1) (iss (nmem s)))
+            (mkND (d_hwm (ndsk s)) (ninv (nmem s) + 1) (d_allow (ndsk s)) (d_chan (ndsk s)) (d_forgot (ndsk s))
+                  (iss (nmem s))),
        true)
+  | IssueInvoice h a =>
+      (* Node::sign_bolt11_invoice: refused when the table of issued invoices is full; the same
+         invoice again is signed again and nothing moves; another invoice for a hash that has one
+         is refused and nothing moves; an invoice that names no amount is signed and not tracked.
+         Nothing is written: the node entry takes the table along with its next write. *)
+      if MAX_INV <=? iss_count (iss (nmem s)) then (s, false)
+      else match iss (nmem s) h with
+           | Some a' => (s, a' =? a)
+           | None =>
+               if 0 <? a
+               then (mkNN (mkNV (slots (nmem s)) (hwm (nmem s)) (allow (nmem s)) (ninv (nmem s))
+                                (updk (iss (nmem s)) h (Some a)))
+                          (ndsk s), true)
+               else (s, true)
+           end
   | ChannelRequest _ => (s, false)
   | NRestart => (mkNN (nrestore (ndsk s)) (ndsk s), true)
   end.
 
 Definition ninit : nnode :=
-  mkNN (mkNV (fun _ => SNone) 0 (fun _ => false) 0)
-       (mkND 0 0 (fun _ => false) (fun _ => SNone) (fun _ => false)).
+  mkNN (mkNV (fun _ => SNone) 0 (fun _ => false) 0 (fun _ => None))
+       (mkND 0 0 (fun _ => false) (fun _ => SNone) (fun _ => false) (fun _ => None)).
 
 Fixpoint nrun (s : nnode) (ops : list nop) : nnode :=
   match ops with [] => s | o :: r => nrun (fst (nstep s o)) r end.
@@ -124,4 +149,4 @@ Definition forget_old (s : nnode) (d : N) : nnode :=
 (** add_allowlist as it was before the repair, for a request [good k; unparsable]: the good
     entry is applied in memory, then the request fails and nothing is written *)
 Definition add_allow_old_partial (s : nnode) (k : N) : nnode * bool :=
-  (mkNN (mkNV (slots (nmem s)) (hwm (nmem s)) (updk (allow (nmem s)) k true) (ninv (nmem s))) (ndsk s), false).
+  (mkNN (mkNV (slots (nmem s)) (hwm (nmem s)) (updk (allow (nmem s)) k true) (ninv (nmem s)) (iss (nmem s))) (ndsk s), false).
